@@ -10,7 +10,7 @@
    The statements hold for every logarithm / power function [lg], [ex] plugged into the model. *)
 From Coq Require Import ZArith List Bool Lia Reals.
 Import ListNotations.
-From Osmo Require Import Base.DecModel Gen.C10_consts C10.Model C10.LogExp C10.Spec C10.ProofsSum C10.ProofsList C10.ProofsChain C10.ProofsTwap C10.ProofsLog C10.ProofsAnswer C10.ProofsFull C10.Lift C10.Corr C10.CorrLink C10.GeomBound C10.GeomReal C10.BridgeC13.
+From Osmo Require Import Base.DecModel Gen.C10_consts C10.Model C10.LogExp C10.Spec C10.ProofsSum C10.ProofsList C10.ProofsChain C10.ProofsTwap C10.ProofsLog C10.ProofsAnswer C10.ProofsFull C10.Lift C10.Corr C10.CorrLink C10.GeomBound C10.GeomReal C10.GeomMean C10.BridgeC13.
 Open Scope Z_scope.
 
 (* arithmetic TWAP = the code's rounding (truncating division) of  sum p_i * dt_i / (end - start), for every history,
@@ -172,21 +172,35 @@ Theorem C10_geom_value_partial : forall (ex : Z -> option Z) (eta : R),
 Proof. exact geom_value. Qed.
 Print Assumptions C10_geom_value_partial.
 
-(* ... and for the model's own Exp2 the hypothesis holds with eta = 1e-19: it returns what C13's model of the same code
-   returns (C10/BridgeC13.v), for which C13 proves |Exp2 e - 2^e| <= 1e-19 * 2^e.  So, for every history: *)
-Theorem C10_geom_twap_value_partial : forall t0 h0 w0 w1 evs p G now q0 start stop f v,
-  history twap_log t0 h0 w0 w1 evs p G -> r_time (p_recent p) <= now ->
+(* ... and against the TRUE time-weighted mean M of log2(price) over the millisecond slots of the interval: for every history,
+   any Exp2 accurate to eta <= 1e-18 and any twapLog that is defined and delta-accurate (delta <= 1e-9) on the prices in force,
+       |geom - 2^(+-M)| <= (5.1e-8 + 3 (delta + 1e-18)) * 2^(+-M) + 3e-18      (+ for quote = asset 0, - for asset 1).
+   The Exp2 hypothesis holds for the model's own exp2 with eta = 1e-19 (C10_exp2_accurate below).
+   _partial: delta-accuracy of the model's own twap_log (LogBase2 cut to 18 decimals: delta = 1e-18 + LogBase2's error)
+   is C13's LogBase2 theorem, not available as a committed result when this was written. *)
+Theorem C10_geom_twap_true_mean_partial : forall (lg ex : Z -> option Z) (eta delta : R) (admissible : Z -> Prop),
+  (0 <= eta <= 1 / 10 ^ 18)%R -> (0 <= delta <= 1 / 10 ^ 9)%R ->
+  (forall e E, ex e = Some E -> 0 <= e -> (Rabs (bR E - Rpower 2 (bR e)) <= eta * Rpower 2 (bR e))%R) ->
+  (forall p, admissible p -> 0 < p /\ exists l, lg p = Some l /\ (Rabs (dR l - log2R (dR p)) <= delta)%R) ->
+  forall t0 h0 w0 w1 evs p G now q0 start stop f v,
+  history lg t0 h0 w0 w1 evs p G -> r_time (p_recent p) <= now ->
   t0 <= start -> max_keep t0 evs <= start -> ms start < ms stop ->
-  twap_between twap_log exp2 now p q0 true start stop = QVal f v ->
-  let diff := integral (fun tau => glogv twap_log (price_at (spec_events t0 w0 w1 evs) true 0 tau)) (ms start) (ms stop) in
-  diff <> 0 ->
-  let m := Z.quot diff (ms stop - ms start) in
-  let T := Rpower 2 (dR (Z.abs m)) in
-  let invert := ((m <? 0) && q0) || (negb (m <? 0) && negb q0) in
-  let target := if invert then (/ T)%R else T in
-  (Rabs (dR v - target) <= 51 / 10 ^ 9 * target + 3 / 10 ^ 18)%R.
-Proof. exact geom_twap_value. Qed.
-Print Assumptions C10_geom_twap_value_partial.
+  twap_between lg ex now p q0 true start stop = QVal f v ->
+  let price := price_at (spec_events t0 w0 w1 evs) true 0 in
+  integral (fun tau => glogv lg (price tau)) (ms start) (ms stop) <> 0 ->
+  (forall tau, ms start <= tau < ms stop -> admissible (price tau)) ->
+  let M := (rintegral (fun tau => log2R (dR (price tau))) (ms start) (ms stop) / IZR (ms stop - ms start))%R in
+  let target := Rpower 2 (if q0 then M else (- M)%R) in
+  (Rabs (dR v - target) <= (51 / 10 ^ 9 + 3 * (delta + 1 / 10 ^ 18)) * target + 3 / 10 ^ 18)%R.
+Proof. exact geom_twap_true_mean. Qed.
+Print Assumptions C10_geom_twap_true_mean_partial.
+
+(* the model's own Exp2 (C10/LogExp.v) returns what C13's model of the same Go code returns (C10/BridgeC13.v), for which C13
+   proves |Exp2 e - 2^e| <= 1e-19 * 2^e (Coq-Interval on the generated coefficients): the eta-hypothesis above holds *)
+Theorem C10_exp2_accurate : forall e E, exp2 e = Some E -> 0 <= e ->
+  (Rabs (bR E - Rpower 2 (bR e)) <= 1 / 10 ^ 19 * Rpower 2 (bR e))%R.
+Proof. exact exp2_accurate. Qed.
+Print Assumptions C10_exp2_accurate.
 
 (* the integer facts behind it: SigFigRound(d, 10^8) stays within d/(2*10^7) + 1 units of d *)
 Theorem C10_sigfig_round_close : forall d v, sigfig_round d = Some v -> 0 < d ->
